@@ -157,5 +157,5 @@ ok = note('shared objects unchanged', idsnap(c, p, r1, r2, r3) == snap)
 fresh = [summarize_test(make()[2].test({DOC})), make()[0].filter(({DOC})['a']['c']).result, summarize_test(make()[3].test({DOC})), summarize_validation(Schema([make()[2], make()[4]]).validate({DOC}))]
 return ok and same('shared vs fresh', shared, fresh)
 """
-    out.append(mk_case("c08.seq.shared_cond_and_path", [("t", "int"), ("u1", U), ("u2", "int"), ("u3", "int")], body, pre=[f"BU({L}, t, u1, u2, u3)"], stubs=["sym_repr"]))
+    out.append(mk_case("c08.seq.shared_cond_and_path", [("t", "int"), ("u1", "int" if ctx.quick else U), ("u2", "int"), ("u3", "int")], body, pre=[f"BU({L}, t, u1, u2, u3)"], stubs=["sym_repr"]))
     return out
